@@ -9,7 +9,7 @@ for area in "$@"; do
   for n in 1 2 3; do
     if [ -f $R/$area/OUT/patch$n.diff ] && [ -f $R/$area/OUT/meta$n.json ]; then
       pid=$(python3 -c "import json;print(json.load(open('$R/$area/OUT/meta$n.json'))['property'])")
-      k=1; while [ -d /verif/seeded/$pid-$k ]; do k=$((k+1)); done
+      k=1; until mkdir /verif/seeded/$pid-$k 2>/dev/null; do k=$((k+1)); done
       SEED_WT=$R/$area SEED_INDEX=$k /verif/tools_seed.py $pid $n > $R/$area.eval$n.log 2>&1
       echo "$area $n -> $pid-$k" >> $R/area_map.txt
     fi
